@@ -39,6 +39,7 @@ type PathResult struct {
 	Steps     int               `json:"steps"`
 	Threads   int               `json:"threads,omitempty"`
 	Decisions int               `json:"decisions"`
+	NoNative  bool              `json:"no_native,omitempty"` // depends on a stubbed environment value (random name)
 }
 
 type AssertOut struct {
@@ -193,6 +194,21 @@ func newInterp(w *World) *Interp {
 	}()
 	in.solver.Pop()
 	in.lenient = false
+	// package time is not initialised (its init needs the OS); give the two
+	// location pointers their documented values so that time.Unix works
+	if tp := w.Package("time"); tp != nil {
+		for _, pr := range [][2]string{{"Local", "localLoc"}, {"UTC", "utcLoc"}} {
+			gp, _ := tp.Members[pr[0]].(*ssa.Global)
+			gl, _ := tp.Members[pr[1]].(*ssa.Global)
+			if gp != nil && gl != nil {
+				in.global(gp).leaf = in.global(gl)
+				w.mu.Lock()
+				delete(w.tainted, gp)
+				delete(w.tainted, gl)
+				w.mu.Unlock()
+			}
+		}
+	}
 	in.globalSnap = in.globals
 	return in
 }
@@ -231,6 +247,7 @@ func (in *Interp) resetPath() {
 	in.label = ""
 	in.cuts = nil
 	in.rnd = 0
+	in.usedRandom = false
 	in.curVal = 0
 }
 
@@ -290,6 +307,7 @@ func (in *Interp) runPath(c *Case, prefix []dec) (res PathResult, alts [][]dec) 
 	res.Threads = nthreads
 	res.Decisions = len(in.decisions)
 	res.Cuts = in.cuts
+	res.NoNative = in.usedRandom
 	switch res.Kind {
 	case "INFEASIBLE", "ASSUME", "ENGINE":
 	default:
